@@ -68,24 +68,23 @@ enum Case {
 }
 
 fn starts_with(bytes: &Bytes, starts: &Bytes, case: Case) -> bool {
-    if bytes.len() < starts.len() {
-        return false;
-    }
-
     match case {
-        Case::Sensitive => starts[..] == bytes[0..starts.len()],
-        Case::Insensitive => Chars::new(starts)
-            .zip(Chars::new(bytes))
-            .all(|(a, b)| match (a, b) {
-                (Ok(a), Ok(b)) => {
+        Case::Sensitive => bytes.len() >= starts.len() && starts[..] == bytes[0..starts.len()],
+        // Every char of `starts` needs a matching char of `bytes`: lower-casing can change the
+        // length in bytes, so the byte lengths say nothing, and `bytes` may run out first.
+        Case::Insensitive => {
+            let mut value = Chars::new(bytes);
+            Chars::new(starts).all(|a| match (a, value.next()) {
+                (Ok(a), Some(Ok(b))) => {
                     if a.is_ascii() && b.is_ascii() {
                         a.eq_ignore_ascii_case(&b)
                     } else {
-                        a.to_lowercase().zip(b.to_lowercase()).all(|(a, b)| a == b)
+                        a.to_lowercase().eq(b.to_lowercase())
                     }
                 }
                 _ => false,
-            }),
+            })
+        }
     }
 }
 
